@@ -29,6 +29,11 @@ func parseLen(p []byte) (int, error) {
 		return -1, nil
 	}
 
+	// a length is canonical decimal: no leading zero, and short enough not to overflow
+	if (len(p) > 1 && p[0] == '0') || len(p) > 18 {
+		return -1, codec.ErrInvalidResp
+	}
+
 	var n int
 	for _, b := range p {
 		n *= 10
